@@ -252,6 +252,8 @@ func behCmd(beh string) string {
 		return "stall:120"
 	case "accept", "kicklogin", "kickmid", "hang":
 		return beh
+	case "cancel", "cancelmid":
+		return "hang" // free run: nobody cancels, the request runs into its (short) deadline
 	case "refuse":
 		return "drop" // the backend closes the connection without answering the login
 	}
@@ -272,6 +274,7 @@ type stats struct {
 	FirstRuns  int            `json:"first_connection_runs"`
 	FirstHeld  int            `json:"first_connection_runs_held_at_ack"`
 	BreakHeld  int            `json:"runs_with_client_break_held_at_switch_completion"`
+	Cancels    int            `json:"request_contexts_cancelled"`
 	TotalMs    int64          `json:"total_ms"`
 }
 
@@ -389,6 +392,7 @@ func TestSchedules(t *testing.T) {
 		if info.breakHeld {
 			st.BreakHeld++
 		}
+		st.Cancels += info.cancels
 		for _, g := range info.gates {
 			st.Gates[g]++
 		}
@@ -411,6 +415,7 @@ func TestSchedules(t *testing.T) {
 
 type runInfo struct {
 	diverged, unfinished, overlap, firstHeld, breakHeld bool
+	cancels                                             int
 	gates                         []string
 }
 
@@ -465,6 +470,7 @@ func runSchedule(w *world, idx int, sc schedule, seed int64) (recs []tracefmt.Re
 
 	var dmu sync.Mutex
 	done := map[string]bool{}
+	cancels := map[string]context.CancelFunc{}
 	quit := false
 	started := map[string]bool{}
 	attemptOf := map[string]*rig.Attempt{}
@@ -486,8 +492,14 @@ func runSchedule(w *world, idx int, sc schedule, seed int64) (recs []tracefmt.Re
 			if rq.Beh == "hang" {
 				d = 900 * time.Millisecond
 			}
+			if rq.Beh == "cancel" || rq.Beh == "cancelmid" {
+				d = 3 * time.Second // the schedule cancels long before
+			}
 			ctx, cancel := context.WithTimeout(context.Background(), d)
 			defer cancel()
+			dmu.Lock()
+			cancels[tn] = cancel
+			dmu.Unlock()
 			target := r.P.Server(rq.S)
 			w.add(tracefmt.Rec{"ev": "call", "t": tn, "s": rq.S, "api": rq.Api})
 			status, detail := "fail", ""
@@ -652,6 +664,35 @@ func runSchedule(w *world, idx int, sc schedule, seed int64) (recs []tracefmt.Re
 			a := attemptOf[tn]
 			if a == nil {
 				info.diverged = true // rejected, or never got that far
+				continue
+			}
+			if beh := sc.Prog[tn].Beh; beh == "cancel" || beh == "cancelmid" {
+				// the backend stays silent (in login, or -- legacy clients -- after its login success);
+				// the caller cancels the request context: the call has to come back
+				if beh == "cancelmid" && sc.Ver < rig.P1_20_2 {
+					if !a.Do("loginok") {
+						info.diverged = true
+						continue
+					}
+					time.Sleep(40 * time.Millisecond) // let the proxy get past the login success
+				}
+				dmu.Lock()
+				cancel := cancels[tn]
+				dmu.Unlock()
+				if cancel == nil {
+					info.diverged = true
+					continue
+				}
+				w.add(tracefmt.Rec{"ev": "cancel", "t": tn, "phase": beh})
+				info.cancels++
+				cancel()
+				if s, _ := a.State(); s == "login" {
+					go a.Do("hang") // the parked backend connection starts reading, so it notices a close
+				}
+				if !rig.WaitFor(patience, func() bool { return isDone(tn) || ctl.At(tn) != "" }) {
+					// 6 s after its context was cancelled the call is still blocked
+					w.add(tracefmt.Rec{"ev": "stuck", "t": tn})
+				}
 				continue
 			}
 			if !a.Do(behCmd(sc.Prog[tn].Beh)) {
@@ -833,7 +874,7 @@ func runFirstJoin(w *world, idx int, sc schedule, seed int64) (recs []tracefmt.R
 		select {
 		case jerr = <-joined: // the client has JoinGame although the next handler is not installed yet
 			gotJoin = true
-		case <-time.After(1500 * time.Millisecond):
+		case <-time.After(800 * time.Millisecond):
 		}
 		close(f.release)
 	case jerr = <-joined:
